@@ -34,6 +34,11 @@ class StatefulMixin:
             for i in range(steps):
                 x += i
             return ['seen', seen, x]
+        if ending == 'hang':
+            mark(markdir, 'hanging')
+            x = 0
+            while True:      # interruptible, ends only by a terminate request
+                x += 1
         raise ValueError(ending)
 
 
@@ -59,3 +64,12 @@ class StatefulPersistentProcessWorker(StatefulMixin, PersistentProcessWorker):
 
 class StatefulPersistentRemoteWorker(StatefulMixin, PersistentRemoteWorker):
     pass
+
+
+class SlowCleanupPersistentThreadWorker(PersistentThreadWorker):
+    """C17: an incarnation that has recorded its outcome but needs a while to finish."""
+
+    def _cleanup(self):
+        import time
+        time.sleep(1.5)
+        super()._cleanup()
